@@ -568,13 +568,17 @@ func ruleEncodersTotal(c *Ctx, rule string) {
 				return true, ""
 			}
 			if w.IsMod[h] && len(h.Blocks) > 0 {
-				// a module helper: only if everything IT returns comes from the library
+				// a module helper: only if everything IT returns comes from the library — or is
+				// returned only for values no decoder can yield (a Port outside 0..65535)
 				for _, r := range returnsOf(h) {
 					for _, res := range r.Results {
 						if res.Type().String() != "error" {
 							continue
 						}
 						if ok, why := fromLib(res, d+1); !ok {
+							if outsideDecoderRange(w, call, h, r) {
+								continue
+							}
 							return false, fname(h) + " returns " + why
 						}
 					}
@@ -607,4 +611,79 @@ func ruleEncodersTotal(c *Ctx, rule string) {
 			c.Bad(rule, "proto."+tn, "AddTo", w.pos(add.Pos()), "the encoder can refuse a value by a test of its own ("+bad+"): a value the decoder accepts (and every caller may hold) cannot be written back — decode∘encode is no longer the identity on the decoder's range")
 		}
 	}
+}
+
+// outsideDecoderRange: the return r of helper h (called as call) is reached only when an int
+// parameter that the call fills from a Port field is below 0 or above 65535 — on every edge
+// into the returning block. The decoders read the port from 16 bits, so such a value never
+// comes out of a decode.
+func outsideDecoderRange(w *World, call *ssa.Call, h *ssa.Function, r *ssa.Return) bool {
+	isPortParam := func(v ssa.Value) bool {
+		p, ok := stripIntConv(v).(*ssa.Parameter)
+		if !ok || p.Parent() != h {
+			return false
+		}
+		i := paramIndex(p)
+		if i < 0 || i >= len(call.Call.Args) {
+			return false
+		}
+		a := stripIntConv(w.resolveLoad(call.Call.Args[i]))
+		if fx, isF := a.(*ssa.Field); isF {
+			st, _ := fx.X.Type().Underlying().(*types.Struct)
+			return st != nil && st.Field(fx.Field).Name() == "Port"
+		}
+		_, f, isL := fieldLoad(a)
+		return isL && f.Name() == "Port"
+	}
+	outside := func(fs []Fact) bool {
+		for _, f := range fs {
+			if f.Op != "<" || !f.Truth {
+				continue
+			}
+			if isPortParam(f.X) {
+				if k, ok := constInt(f.Y); ok && k <= 0 {
+					return true // port < k ≤ 0
+				}
+			}
+			if isPortParam(f.Y) {
+				if k, ok := constInt(f.X); ok && k >= 65535 {
+					return true // 65535 ≤ k < port
+				}
+			}
+		}
+		return false
+	}
+	b := r.Block()
+	var fs []Fact
+	for f := range w.facts(h).in[b] {
+		fs = append(fs, f)
+	}
+	if outside(fs) {
+		return true
+	}
+	// merged error block of `p < 0 || p > max`: every incoming edge on its own
+	seen := map[*ssa.BasicBlock]bool{}
+	var edgeOK func(blk *ssa.BasicBlock, d int) bool
+	edgeOK = func(blk *ssa.BasicBlock, d int) bool {
+		if d > 3 || len(blk.Preds) == 0 || seen[blk] {
+			return false
+		}
+		seen[blk] = true
+		for _, p := range blk.Preds {
+			var pf []Fact
+			for f := range w.facts(h).in[p] {
+				pf = append(pf, f)
+			}
+			pf = append(pf, edgeFacts(p, blk)...)
+			if outside(pf) {
+				continue
+			}
+			if len(edgeFacts(p, blk)) == 0 && edgeOK(p, d+1) {
+				continue
+			}
+			return false
+		}
+		return true
+	}
+	return edgeOK(b, 0)
 }
